@@ -26,6 +26,9 @@ type multiFetcher struct {
 	//
 	// Used to identify which fetcher to get the rest of the fields from in `GetFields`.
 	currentFetcherIndex int
+
+	// True if the docID last returned from `NextDoc` has not been consumed by `GetFields`.
+	hasPendingDoc bool
 }
 
 var _ fetcher = (*multiFetcher)(nil)
@@ -55,6 +58,13 @@ type fetcherDocID struct {
 }
 
 func (f *multiFetcher) NextDoc() (immutable.Option[string], error) {
+	if f.hasPendingDoc {
+		// The caller moved on without fetching the fields of the last document (for example because
+		// it may not read it), that document must not be yielded again.
+		f.children[f.currentFetcherIndex].docID = immutable.None[string]()
+		f.hasPendingDoc = false
+	}
+
 	selectedFetcherIndex := -1
 	var selectedDocID immutable.Option[string]
 
@@ -90,6 +100,7 @@ func (f *multiFetcher) NextDoc() (immutable.Option[string], error) {
 	}
 
 	f.currentFetcherIndex = selectedFetcherIndex
+	f.hasPendingDoc = selectedFetcherIndex >= 0
 	return selectedDocID, nil
 }
 
@@ -100,6 +111,7 @@ func (f *multiFetcher) GetFields() (immutable.Option[EncodedDocument], error) {
 	}
 
 	f.children[f.currentFetcherIndex].docID = immutable.None[string]()
+	f.hasPendingDoc = false
 
 	return doc, nil
 }
